@@ -906,9 +906,46 @@ struct Failure {
     failing_step: usize,
 }
 
+/// Canonical outcome of `text` computed by a fresh child process (cached per text): replaying or
+/// shrinking a script must not put a call of its own in front of the script, or a dependence on
+/// the call history (a memo of the last result, say) sees another history than the recorded one.
+fn canonical_isolated(text: &str, base_dir: &str) -> Option<Outcome> {
+    use std::sync::Mutex;
+    static CACHE: Mutex<Option<BTreeMap<(u64, usize), Outcome>>> = Mutex::new(None);
+    let key = (fnv_str(text), text.len());
+    if let Some(o) = CACHE.lock().unwrap().get_or_insert_with(BTreeMap::new).get(&key) {
+        return Some(o.clone());
+    }
+    let tf = format!("{}/canon-{}-{:016x}.kiki", base_dir, std::process::id(), key.0);
+    std::fs::write(&tf, text.as_bytes()).ok()?;
+    let exe = std::env::current_exe().ok()?;
+    let mut cmd = std::process::Command::new(exe);
+    cmd.arg("canonfull").arg(&tf);
+    for nme in ENV_NAMES {
+        cmd.env_remove(nme);
+    }
+    let out = cmd.output().ok();
+    let _ = std::fs::remove_file(&tf);
+    let out = out?;
+    let s = String::from_utf8(out.stdout).ok()?;
+    let (class, payload) = s.split_once('\n')?;
+    let class: &'static str = match class {
+        "ok" => "ok",
+        "err" => "err",
+        "panic" => "panic",
+        _ => return None,
+    };
+    let o = Outcome { class, payload: payload.to_string() };
+    CACHE.lock().unwrap().get_or_insert_with(BTreeMap::new).insert(key, o.clone());
+    Some(o)
+}
+
 fn fails(f: &Failure, base_dir: &str) -> Option<(Outcome, Outcome)> {
     let st = &f.script.steps[f.failing_step];
-    let canon = canonical(&f.texts[st.text], base_dir);
+    let canon = match canonical_isolated(&f.texts[st.text], base_dir) {
+        Some(c) => c,
+        None => canonical(&f.texts[st.text], base_dir),
+    };
     let recs = exec_script(&f.script, &f.texts, base_dir, Some(f.failing_step));
     if recs.len() <= f.failing_step {
         return None;
@@ -1466,7 +1503,30 @@ fn main() {
                     }
                     if rec.outcome != *c && violations.len() < 3 {
                         let f = Failure { script: script.clone(), texts: texts.clone(), failing_step: i };
-                        let (small, shrink_steps) = shrink(f, &base_dir, 400);
+                        let (mut small, shrink_steps) = shrink(f, &base_dir, 400);
+                        // Shrinking runs candidates one after another in this process, so for a
+                        // dependence on the call history an accepted candidate may owe its failure
+                        // to the candidates before it. The minimised script is therefore confirmed
+                        // in a fresh process; if it does not fail there, the recorded script (cut
+                        // at the failing step) is reported instead.
+                        {
+                            let probe_path = format!("{replay_dir}/C14-seed{seed}-run{r}-step{i}.probe.json");
+                            let (pc, pg) = (c.clone(), rec.outcome.clone());
+                            let pj = failure_json(seed, r, &small, &pc, &pg, J::Null);
+                            let confirmed = std::fs::write(&probe_path, pj.to_string()).is_ok()
+                                && std::env::current_exe()
+                                    .ok()
+                                    .and_then(|exe| std::process::Command::new(exe).arg("replay").arg(&probe_path).output().ok())
+                                    .map(|o| o.status.code() == Some(1))
+                                    .unwrap_or(true);
+                            let _ = std::fs::remove_file(&probe_path);
+                            if !confirmed {
+                                let mut full = Failure { script: script.clone(), texts: texts.clone(), failing_step: i };
+                                full.script.steps.truncate(i + 1);
+                                small = full;
+                                *class_counts.entry("minimised_script_not_confirmed_in_fresh_process(recorded script kept)".into()).or_insert(0) += 1;
+                            }
+                        }
                         let (sc, sg) = match fails(&small, &base_dir) {
                             Some(x) => x,
                             None => (c.clone(), rec.outcome.clone()),
@@ -1625,6 +1685,13 @@ fn main() {
                 }
             };
             println!("{}:{:016x}", o.class, o.digest());
+        }
+        Some("canonfull") => {
+            // canonical outcome of one text in full: class, newline, payload (see canonical_isolated)
+            let file = args.get(2).expect("text file");
+            let t = std::fs::read_to_string(file).expect("read");
+            let c = canonical(&t, &base_dir);
+            print!("{}\n{}", c.class, c.payload);
         }
         Some("canon") => {
             // canonical outcome digest of one text (cross-process agreement / uncontrolled-source replay)
